@@ -39,7 +39,7 @@ use poulpy_core::{
 };
 use poulpy_hal::{
     api::{ModuleNew, ScratchOwnedAlloc, ScratchOwnedBorrow},
-    layouts::{DeviceBuf, GaloisElement, Module, ScratchOwned},
+    layouts::{DeviceBuf, GaloisElement, Module, ScratchOwned, ZnxInfos, ZnxView, ZnxViewMut},
     source::Source,
 };
 
@@ -244,6 +244,35 @@ macro_rules! backend_impl {
                     .join("/")
             }
 
+            /// `dump=1`: the limbs of one ciphertext, column by column, limb by limb, coefficient by coefficient
+            fn dump_ct(c: &Ct) -> String {
+                let d = c.data();
+                let mut v: Vec<String> = Vec::new();
+                for col in 0..d.cols() {
+                    for j in 0..d.size() {
+                        v.extend(d.at(col, j).iter().map(|x| x.to_string()));
+                    }
+                }
+                if v.is_empty() { "-".to_string() } else { v.join(".") }
+            }
+
+            /// `dump=1`: fill every limb with pseudo-random balanced digits (`-2^(b-1) ≤ x < 2^(b-1)`); the data
+            /// tie compares limbs, it does not need a valid encryption
+            fn fill_ct(c: &mut Ct, base2k: usize, state: &mut u64) {
+                let cols = c.data().cols();
+                let size = c.data().size();
+                let half: i64 = 1i64 << (base2k - 1);
+                for col in 0..cols {
+                    for j in 0..size {
+                        for x in c.data_mut().at_mut(col, j).iter_mut() {
+                            *state = state.wrapping_mul(6364136223846793005).wrapping_add(1442695040888963407);
+                            let r = (*state >> 11) as i64 & ((1i64 << base2k) - 1);
+                            *x = r - half;
+                        }
+                    }
+                }
+            }
+
             fn pt_znx(ctx: &Ctx, meta: CKKSMeta, base2k: usize, vals: &(Vec<f64>, Vec<f64>)) -> anyhow::Result<CKKSPlaintextVecZnx<Vec<u8>>> {
                 let mut rnx = CKKSPlaintextVecRnx::<F>::alloc(ctx.n)?;
                 ctx.encoder.encode_reim(&mut rnx, &to_fv(&vals.0), &to_fv(&vals.1))?;
@@ -330,8 +359,14 @@ macro_rules! backend_impl {
                         let k = nat(f[2]);
                         let pm = meta(f[3], f[4]);
                         let pb = nat(f[5]);
-                        // keep the slot values inside what a plaintext of this precision can hold
-                        let cap_bits = (pm.min_k(Base2K(pb.max(1) as u32)).as_usize() as i64 - pm.log_delta as i64 - 2).clamp(-8, 40);
+                        // keep the slot values inside what a plaintext of this precision can hold: the limbs of the
+                        // container, and the integer path `to_znx` selects from the declared metadata (`i64` when
+                        // log_delta + log_budget <= 63, `i128` otherwise: `(x * 2^log_delta).to_i64().unwrap()` panics
+                        // for f64 and wraps silently for f128 beyond it — the caller's overflow, see ctx.assumptions)
+                        let int_bits: i64 = if pm.log_delta + pm.log_budget <= 63 { 63 } else { 127 };
+                        let cap_bits = (pm.min_k(Base2K(pb.max(1) as u32)).as_usize() as i64 - pm.log_delta as i64 - 2)
+                            .min(int_bits - pm.log_delta as i64 - 2)
+                            .clamp(-8, 40);
                         let v = gen_slots(step, m, mag.min((cap_bits as f64).exp2()));
                         let z = pt_znx(ctx, pm, pb, &v).map_err(|e| err_string(&e))?;
                         let lay = EncryptionLayout::new_from_default_sigma(GLWELayout {
@@ -1072,12 +1107,30 @@ macro_rules! backend_impl {
                 let ops: Vec<&str> = kv(t, "ops").unwrap_or("").split(';').filter(|s| !s.is_empty()).collect();
                 let mut out: Vec<String> = Vec::new();
                 let mut diag: Vec<String> = Vec::new();
+                let dump = kvu(t, "dump", 0) == 1;
+                if dump {
+                    let mut st: u64 = kvu(t, "seed", 1) as u64 ^ 0x9E3779B97F4A7C15;
+                    for c in pool.iter_mut() {
+                        fill_ct(c, base2k, &mut st);
+                    }
+                    out.push(format!("init#{}", pool.iter().map(dump_ct).collect::<Vec<_>>().join("/")));
+                }
+                let dump_of = |pool: &Vec<Ct>, f: &[&str]| -> String {
+                    if !dump {
+                        return String::new();
+                    }
+                    let slot = |i: usize| match f.get(i).and_then(|x| x.parse::<usize>().ok()) {
+                        Some(d) if d < pool.len() => dump_ct(&pool[d]),
+                        _ => "-".to_string(),
+                    };
+                    if f[0] == "align" { format!("#{}/{}", slot(1), slot(2)) } else { format!("#{}", slot(1)) }
+                };
                 for (i, op) in ops.iter().enumerate() {
                     let f: Vec<&str> = op.split(',').collect();
                     let r = std::panic::catch_unwind(std::panic::AssertUnwindSafe(|| exec(ctx, &mut pool, &mut vals, &f, i as u64, mag)));
                     match r {
                         Ok(Ok(dst)) => {
-                            out.push(format!("ok@{}", show_pool(&pool)));
+                            out.push(format!("ok@{}{}", show_pool(&pool), dump_of(&pool, &f)));
                             prec_after(&f, &mut vprec);
                             let mut dg = "-".to_string();
                             if want_vals {
@@ -1110,7 +1163,7 @@ macro_rules! backend_impl {
                                 out.push("bad-op".to_string());
                                 break;
                             }
-                            out.push(format!("err:{}@{}", e, show_pool(&pool)));
+                            out.push(format!("err:{}@{}{}", e, show_pool(&pool), dump_of(&pool, &f)));
                             diag.push("-".to_string());
                         }
                         Err(_) => {
